@@ -28,7 +28,10 @@ Oracle relaxations (forml behaviour defensible under the property text):
     apply output still shows every parameter in effect.
   * a stateless actor exporting a non-empty state is only counted; its consequences show in the transfer monitor.
 
-Known findings on the pinned tree (known_findings.d/C13.json; each has a directed case in ``directed``):
+Findings (each has a directed case in ``directed``).  The first three were repaired in /repo by ``fix:`` commits
+(9549869, e488368, 13187c9; status "fixed" in known_findings.json), so their keys suppress nothing any more: a regression is
+reported as an ordinary VIOLATION, and the per-shard flavour-skip logic below only keeps such a run readable.  Only the
+last one is still a known finding:
   class-bare-empty-mapping               bare ``@wrap.Actor.type``: Mapping stays {} -> is_stateful/get_state/set_state
                                          raise KeyError('train'); the flavour WrapBare is skipped while this is so
   fn-stateless-varkw-signature-order     ``@wrap.Actor.apply`` on ``(x, /, *, opt, **kwargs)``: keyword parameters kept in a
